@@ -54,7 +54,11 @@ def gen_tables(rng):
     tables = [None]
 
     def leafs(n, names):
-        return [[nm, {"f": "leaf", "kind": k, "default": gen_default(rng, k)}] for nm, k in zip(names, [rng.choice(KINDS) for _ in range(n)])]
+        out = [[nm, {"f": "leaf", "kind": k, "default": gen_default(rng, k)}] for nm, k in zip(names, [rng.choice(KINDS) for _ in range(n)])]
+        for nm, fd in out:
+            if rng.random() < 0.35:
+                fd["env"] = "CINCO_T_C13_UNSET_" + nm.upper()        # mapped to an environment variable that is not set
+        return out
 
     item = {"fields": leafs(rng.randint(1, 3), rng.sample(NAMES, 3)), "dynamic": rng.random() < 0.3}
     tables.append(item)                       # 1: item schema, reused by two lists
@@ -82,6 +86,8 @@ def build_real(tables):
     def field_of(fd):
         k, d = fd["kind"], copy.deepcopy(fd["default"])
         kw = {"default": d}
+        if fd.get("env"):
+            kw["env"] = fd["env"]
         if k == "int":
             return cc.IntField(**kw)
         if k == "str":
@@ -705,6 +711,22 @@ def transfer_stream(ctx, res, n):
                         dict(case, where_differs=first_diff(before["cfgs"][0], after["cfgs"][0])))
         if after["defaults"] != base["defaults"] or after["fields"] != base["fields"]:
             res.violate("C13:schema-changed:transfer", "moving a value between two configurations changed the schema", case)
+        # a ready-made configuration object assigned to a nested field (a new one, or the other root's): the schema does not change
+        try:
+            fsub = root_schema._fields["sub"]
+            newsub = fsub() if isinstance(fsub, cc.Schema) else fsub.config_type()
+            if rng.random() < 0.5:
+                a.sub = newsub
+            else:
+                a["sub"] = b.sub
+            obs3 = observe([], schemas)
+            if obs3["fields"] != base["fields"] or obs3["options"] != base["options"] or [len(sc._fields) for sc in all_schemas(root_schema)] != [len(sc._fields) for sc in schemas]:
+                res.violate("C13:schema-fields-changed:cfg-object", "assigning a configuration object to a nested field changed a schema's field set",
+                            dict(case, fields_before=base["fields"], fields_after=obs3["fields"]))
+            if len(all_schemas(root_schema)) != len(schemas):
+                res.violate("C13:schema-fields-changed:cfg-object", "assigning a configuration object to a nested field added a schema", case)
+        except Exception:  # noqa
+            pass
         # the proxies the receiver now holds belong to it
         for inner in ([x] + (list(x) if isinstance(x, list) else list(x.values()))):
             if hasattr(inner, "cfg") and kind in typed and inner.cfg is not taker:
